@@ -142,6 +142,32 @@ Definition create_in_batches (c : cfg) (bs : list built) (s0 : rst) : rst :=
     let s2 := run_batches (mk_cfg (c_dry c) true) bs s1 in
     clear_stmt (fst (call (if r_err s2 then ERollback else ECommit) s2)).
 
+(* statements gorm derives from the operation's handle through Session{NewDB: true} (a hook running a
+   statement on the tx it is handed, the deletes of selected associations, Preload queries): each has its
+   own Statement; the derived handle inherits DryRun and the connection of the operation *)
+Definition nested_send (c : cfg) (b : built) (s : rst) : rst :=
+  if c_dry c || r_err s then s else
+  let s1 := send (b_ret b) (set_stmt b s) in
+  mk_rst (r_err s1) (r_sql s) (r_vars s) (r_started s1) (r_ra s) (r_log s1) (r_or s1).
+Definition run_nested (c : cfg) (bs : list built) (s : rst) : rst :=
+  fold_left (fun acc b => nested_send c b acc) bs s.
+Definition execute_nested (c : cfg) (k : opk) (b : built) (before after : list built) (s0 : rst) : rst :=
+  let s1 := if has_tx_callbacks k then begin_cb c s0 else s0 in
+  let s2 := run_nested c before s1 in
+  let s3 := main_cb c k b s2 in
+  let s4 := run_nested c after s3 in
+  let s5 := if has_tx_callbacks k then commit_cb c s4 else s4 in
+  if c_dry c then s5 else clear_stmt s5.
+
+(* tx := db.Begin(); operation on tx; tx.Rollback(): inside, the ConnPool is a *sql.Tx (no default
+   transaction); the handle Begin returns inherits DryRun *)
+Definition manual_tx (c : cfg) (k : opk) (b : built) (s0 : rst) : rst :=
+  let (s1, d) := call EBegin s0 in
+  if d_err d then set_err s1 else
+  let s2 := execute (mk_cfg (c_dry c) true) k b s1 in
+  let s3 := fst (call ERollback s2) in
+  mk_rst (r_err s2) (r_sql s2) (r_vars s2) false (r_ra s2) (r_log s3) (r_or s3).
+
 (* observables *)
 Definition is_tx_event (e : ev) : bool := match e with EBegin | ECommit | ERollback => true | _ => false end.
 Fixpoint first_stmt (l : list ev) : option (string * list scalar) :=
